@@ -205,9 +205,12 @@ static void fiber_event_wake_sleepers(fiber_manager_t* manager,
     do {
       assert(to_wake->waiter);
       fiber_t* const to_schedule = (fiber_t*)to_wake->waiter;
+      // the node lives on the sleeper's stack: once the sleeper is scheduled
+      // another thread may steal and resume it, so read 'next' first
+      waiter_el_t* const next = to_wake->next;
       to_schedule->state = FIBER_STATE_READY;
       fiber_manager_schedule(manager, to_schedule);
-      to_wake = to_wake->next;
+      to_wake = next;
     } while (to_wake);
   }
 
@@ -376,6 +379,7 @@ int fiber_sleep(uint32_t seconds, uint32_t useconds) {
     fiber_do_real_sleep(seconds, useconds);
     return FIBER_SUCCESS;
   }
+
 
   const uint64_t sleep_ms = seconds * 1000 + useconds / 1000 + 1;  // ms
   waiter_el_t wake_info = {};
